@@ -32,6 +32,7 @@ type EngineErr struct {
 }
 
 type Report struct {
+	CallCovers int
 	Prop         string
 	Tier         string
 	DB           *SpecDB
@@ -120,12 +121,24 @@ func (r *Report) finish(workdir string) int {
 	var order []string
 	covers := map[string][]string{} // fn -> statuses of exit covers
 	preCover := map[string]string{}
+	callCov := map[string]map[string]string{}
 	engineErr := false
 	for _, cr := range r.Results {
 		ck := cr.Check
 		if cr.Status == "engine-error" {
 			engineErr = true
 			fmt.Printf("ENGINE-ERROR %s: %s\n", ck.Name, cr.Output)
+		}
+		if ck.ExpectSat && strings.Contains(ck.Name, "cover#call") {
+			i := strings.Index(ck.Name, "cover#call")
+			rest := ck.Name[i+len("cover#call"):]
+			kind := rest[:strings.Index(rest, ":")]
+			key := ck.Fn + "|" + rest[strings.Index(rest, ":")+1:] + "|" + ck.Path
+			if callCov[key] == nil {
+				callCov[key] = map[string]string{}
+			}
+			callCov[key][kind] = cr.Status
+			continue
 		}
 		if ck.ExpectSat {
 			if strings.HasSuffix(ck.Name, "cover#pre") {
@@ -215,6 +228,33 @@ func (r *Report) finish(workdir string) int {
 			vacuous = append(vacuous, fi.Key+": no paths generated")
 		}
 	}
+	// contract consistency at call sites: a state that was satisfiable before a
+	// contract was applied must not become unsatisfiable by its postconditions
+	nCallCov := 0
+	{
+		var keys []string
+		for k := range callCov {
+			keys = append(keys, k)
+		}
+		sort.Strings(keys)
+		seen := map[string]bool{}
+		for _, k := range keys {
+			m := callCov[k]
+			nCallCov++
+			parts := strings.SplitN(k, "|", 3)
+			if failedFn[parts[0]] {
+				continue
+			}
+			if pre, post := m["pre"], m["post"]; pre != "" && pre != "vacuous" && post == "vacuous" {
+				msg := parts[0] + ": the contract applied at call " + parts[1] + " contradicts the caller's state (postconditions unsatisfiable)"
+				if !seen[msg] {
+					seen[msg] = true
+					vacuous = append(vacuous, msg)
+				}
+			}
+		}
+	}
+	r.CallCovers = nCallCov
 	nObl, nDis := 0, 0
 	var solverTime float64
 	bySolver := map[string]int{}
